@@ -306,6 +306,35 @@ func TestC06(t *testing.T) {
 		return c
 	}, c06Check)
 
+	// (d0) very deep nesting (within the 16 MiB the proxy accepts as one frame): must terminate without crashing
+	runEnum(t, rec, "deep", func(yield func(c06Case) bool) {
+		shard, shards := evid.Shard()
+		i := 0
+		for _, open := range []string{"[", "(", "{", "f(", "{a:", "[{(f("} {
+			for _, prefix := range []string{"INSERT INTO t (a) VALUES (", "UPDATE t SET a = ", "DELETE FROM t WHERE a = ", "DELETE FROM t WHERE ", "BEGIN BATCH UPDATE t SET a = 1 WHERE b IN ("} {
+				i++
+				if i%shards != shard {
+					continue
+				}
+				n := 15 << 20
+				if !evid.Thorough() && i%3 != 0 {
+					n = 1 << 20
+				}
+				c := c06Case{Text: prefix + strings.Repeat(open, n/len(open)), Want: "false", Planted: []string{"unparseable:deep-nesting"}, Why: "deep-nesting"}
+				rec.Case(fmt.Sprintf("deep:%s:%s:%d", prefix, open, n), "deep-nesting")
+				if !yield(c) {
+					return
+				}
+			}
+		}
+	}, func(c c06Case) *evid.Fail {
+		f := c06Check(c)
+		if f != nil {
+			f.Msg = trunc(f.Msg)
+		}
+		return f
+	})
+
 	// (d) totality on arbitrary input
 	runProp(t, rec, "arbitrary", perShard(evid.Pick(24000, 3200000)), func(rt *rapid.T) c06Case {
 		txt := c06Arbitrary(rt)
